@@ -1,0 +1,10 @@
+//go:build !verif
+
+package ir
+
+// Verification hooks (see verif_on.go). Without the "verif" build tag
+// they are empty and inline away.
+
+func verifEvent(ev string, b *builder, fn *Function) {}
+func verifTask(ev string, x, y *task)                {}
+func verifPkg(ev string, b *builder, p *Package)     {}
